@@ -146,7 +146,7 @@ impl Plan {
                 if full {
                     f.push(Fam::Trunc);
                     // two simultaneous deviations, for documents small enough to square
-                    if JsonPlan::new(&base.bytes, Lvl::Small).map(|p| p.count() <= 700).unwrap_or(false) {
+                    if JsonPlan::for_pairs(&base.bytes).map(|p| p.count() <= 700).unwrap_or(false) {
                         f.push(Fam::Json2);
                     }
                 }
@@ -458,7 +458,7 @@ impl Builder {
                     self.push(d, tgt.site, label, n, None, true, Box::new(move |k| w(&plan.apply(k))));
                 }
                 Fam::Json2 => {
-                    let Some(plan) = JsonPlan::new(&base, Lvl::Small) else { continue };
+                    let Some(plan) = JsonPlan::for_pairs(&base) else { continue };
                     let plan = Arc::new(plan);
                     let w = wrap.clone();
                     let n = plan.count2();
